@@ -673,8 +673,254 @@ impl Routed {
     }
 }
 
-pub fn c16b(_ctx: &Ctx) -> Acc {
-    Acc::new()
+// ===================================================================================================
+// C02 – bounded weights; C16b – NaN decompositions through sample(); C12 – sampler binding
+// ===================================================================================================
+
+pub fn c02_point(case: &Case, r: &Routed, po: &PointObs, _nd: usize, acc: &mut Acc) {
+    let st = Settings::FULL;
+    let s = match &po.out {
+        Outcome::Ok(s) => s,
+        Outcome::Panic(p) => {
+            viol(acc, "C02", "no-panic", case, r, po, &st, format!("sample panicked: {p}"));
+            return;
+        }
+        Outcome::Err(_) => return,
+    };
+    if !case.generic {
+        acc.inc("excluded_G3");
+        return;
+    }
+    let rr = match &po.rr {
+        Some(rr) => rr,
+        None => return,
+    };
+    if rr.margin < 1e-9 {
+        acc.inc("excluded_G5_boundary");
+        return;
+    }
+    let nt = case.comb.n_trees() as f64;
+    let (cmin, csum) = match case.fpoly.c_min() {
+        Some(c) => (q_to_f64(&c), q_to_f64(&case.fpoly.c_sum())),
+        None => return,
+    };
+    let nontrivial = case.comb.n_trees() >= 2 && case.fpoly.distinct_coeffs() >= 2;
+    let d2 = case.g.dim as f64 / 2.0;
+    let lo = libm::exp(-d2 * nt.ln() - case.dod * csum.ln());
+    let hi = libm::exp(case.dod * (nt.ln() - cmin.ln()));
+    // (a) the implementation's own tropical values bound the exact polynomials at the unrescaled parameters
+    if let (Some(xnr), Some(ut), Some(vt)) = (&po.log.x_unrescaled, po.log.u_trop_nr, po.log.v_trop_nr) {
+        if finite_pos(xnr) && xnr.iter().all(|v| *v >= 1e-140) && ut.is_finite() && vt.is_finite() && ut > 0.0 && vt > 0.0 {
+            if let Some(ex) = exact_at(case, &r.kin, xnr) {
+                if ex.r_cancel <= 1e8 && !ex.v.is_zero() {
+                    acc.inc("polynomial_bounds_judged");
+                    if nontrivial {
+                        acc.inc("polynomial_bounds_judged_nontrivial");
+                    }
+                    let slack = qf(1.0 + 1e-12);
+                    let (utq, vtq) = (qf(ut), qf(vt));
+                    let ntq = qi(case.comb.n_trees() as i64);
+                    let cminq = case.fpoly.c_min().unwrap();
+                    let csumq = case.fpoly.c_sum();
+                    let ok_u = utq <= &ex.u * &slack && ex.u <= &ntq * &utq * &slack;
+                    let ok_v = &cminq / &ntq * &vtq <= &ex.v * &slack && ex.v <= &csumq * &vtq * &slack;
+                    if !ok_u {
+                        viol(acc, "C02", "U_tr <= U <= N_T U_tr", case, r, po, &st, format!("U_tr (logged) = {ut:e}, exact U = {:e}, N_T = {nt}", q_to_f64(&ex.u)));
+                    }
+                    if !ok_v {
+                        viol(acc, "C02", "(c_min|N_T) V_tr <= V <= C_sum V_tr", case, r, po, &st, format!("V_tr (logged) = {vt:e}, exact V = {:e}, c_min = {cmin:e}, C_sum = {csum:e}, N_T = {nt}", q_to_f64(&ex.v)));
+                    }
+                } else {
+                    acc.inc("excluded_cancellation_gt_1e8");
+                }
+            }
+        } else {
+            acc.inc("excluded_G4");
+        }
+    }
+    // (b),(c) the gauge-free consequence, at the rescaled parameters
+    let xs = match &po.log.x {
+        Some(x) => x,
+        None => return,
+    };
+    if !(finite_pos(xs) && xs.iter().all(|v| *v >= 1e-140 && *v <= 1e140)) {
+        acc.inc("excluded_G4");
+        return;
+    }
+    let ex = match exact_at(case, &r.kin, xs) {
+        Some(e) => e,
+        None => return,
+    };
+    if !(ex.r_cancel <= 1e8) {
+        acc.inc("excluded_cancellation_gt_1e8");
+        return;
+    }
+    let tol = TAU0 * (d2 + case.dod + 1.0) * ex.kappa_s * ex.r_cancel.max(1.0) * (1.0 + (lo.ln()).abs() + hi.ln().abs());
+    if !(tol <= 0.05) {
+        acc.inc("excluded_ill_conditioned");
+        return;
+    }
+    if !in_range(&[s.jacobian, s.u, s.v]) {
+        acc.inc("excluded_G4");
+        return;
+    }
+    acc.inc("points_judged");
+    if nontrivial {
+        acc.inc("points_judged_nontrivial");
+    }
+    if let Some(cf) = r.cached_factor() {
+        let ratio = s.jacobian / cf;
+        acc.max("c02_ratio_over_hi", ratio / hi);
+        acc.max("c02_lo_over_ratio", lo / ratio);
+        if !(ratio >= lo * (1.0 - tol) && ratio <= hi * (1.0 + tol)) {
+            viol(acc, "C02", "jacobian|normalisation within [N_T^(-D|2) C_sum^(-dod), (N_T|c_min)^dod]", case, r, po, &st, format!("jacobian/normalisation = {ratio:e} outside [{lo:e}, {hi:e}]"));
+        }
+    }
+    let ratio2 = libm::exp(d2 * (s.u_trop.ln() - s.u.ln()) + case.dod * (s.v_trop.ln() - s.v.ln()));
+    if !(ratio2 >= lo * (1.0 - tol) && ratio2 <= hi * (1.0 + tol)) {
+        viol(acc, "C02", "(u_trop|u)^(D|2) (v_trop|v)^dod within the interval", case, r, po, &st, format!("returned ratio = {ratio2:e} outside [{lo:e}, {hi:e}]"));
+    }
+}
+
+pub fn run_c02(ctx: &Ctx) -> i32 {
+    let tier = ctx.tier;
+    let plan = Plan {
+        cases: fam_for(tier, "C02"),
+        k: tier.pick(2, 3),
+        roles: Roles { u: true, xi: true, p: false, ab: false, xi_moderate: false },
+        settings: Settings::FULL,
+        full_product_cap: tier.pick(800, 6000),
+        sector_all_up_to: 4,
+        sector_stride: tier.pick(7, 3),
+        tropical_routing: true,
+        points_per_case: tier.pick(3000, 40000),
+    };
+    let mut acc = explore(&plan, &c02_point);
+    sample_from_plan(&plan, &mut acc);
+    let fin = Finish {
+        level: "model_checking",
+        rule: format!("stateless exploration of the sampler machine into the corners of the hypercube: every sector, every answer sequence with at most {} deviations over the full xi alphabet (2^-1074 ... 1-2^-53) and interval-end selection answers (full product when small), in the base routing and in the sector's tropical routing; at each execution the implementation's logged tropical values are compared with the exact Symanzik polynomials and the returned weight with the graph-only interval; non-trivial = judged executions of configurations with N_T >= 2 and >= 2 distinct F coefficients", plan.k),
+        states: acc.get("executions"),
+        transitions: acc.get("executions") * 3,
+        traces: acc.get("points_judged") + acc.get("polynomial_bounds_judged"),
+        evaluations: acc.get("executions"),
+        distinct_nontrivial: acc.get("points_judged_nontrivial") + acc.get("polynomial_bounds_judged_nontrivial"),
+        exhaustive: true,
+        bounds: json!({"deviation_bound": plan.k, "cases": plan.cases.len(), "cancellation_cap": 1e8}),
+        assumptions: vec!["exact N_T, c_min, C_sum, U, F from the oracle; tropical theorem brute-forced by the oracle for generic kinematics".into()],
+        extra: Default::default(),
+    };
+    finish(ctx, &acc, fin)
+}
+
+/// C16 (b): corner points through sample() with the stability test on
+pub fn c16b(ctx: &Ctx) -> Acc {
+    let tier = ctx.tier;
+    let mut cases: Vec<CaseSpec> = fam_for(tier, "C16").into_iter().filter(|c| c.g.loop_number(c.g.full()) >= 2 || c.g.ne() <= 2).collect();
+    cases.extend(dl_grid_cases().into_iter().filter(|c| c.g.dim == 3 && c.g.loop_number(c.g.full()) <= 4));
+    let mut total = Acc::new();
+    for tol in [Some(1e-6), Some(f64::INFINITY)] {
+        let st = Settings { stability: tol, debug: false, metadata: true };
+        let plan = Plan {
+            cases: cases.clone(),
+            k: tier.pick(2, 3),
+            roles: Roles { u: false, xi: true, p: false, ab: false, xi_moderate: false },
+            settings: st,
+            full_product_cap: tier.pick(600, 5000),
+            sector_all_up_to: 3,
+            sector_stride: tier.pick(11, 3),
+            tropical_routing: false,
+            points_per_case: tier.pick(600, 10000),
+        };
+        let f = move |case: &Case, r: &Routed, po: &PointObs, _nd: usize, acc: &mut Acc| {
+            acc.inc("evaluations");
+            acc.inc("c16b_corner_points");
+            if let Outcome::Ok(s) = &po.out {
+                let mut nan = s.u.is_nan();
+                if let Some(m) = &s.meta {
+                    nan |= m.decomp.determinant.is_nan()
+                        || m.decomp.inverse.iter().chain(&m.decomp.q_transposed).chain(&m.decomp.q_transposed_inverse).any(|x| x.is_nan());
+                }
+                if nan {
+                    acc.violate(
+                        pkey("C16", "sample-ok-with-nan-decomposition", case, &po.x),
+                        "NaN decomposition never Ok through a sample when the stability test is on",
+                        format!("sample returned Ok with a NaN decomposition (u = {:e}) although matrix_stability_test = {:?}", s.u, st.stability),
+                        point_case(case, &r.kin, &po.x, &st, json!({"prop": "C16"})),
+                    );
+                }
+            }
+        };
+        let acc = explore(&plan, &f);
+        total.merge(acc);
+    }
+    total
+}
+
+/// C12 binding: the lambda of a sample is the quantile function of (dod, designated coordinate)
+pub fn c12_binding(ctx: &Ctx) -> Acc {
+    let tier = ctx.tier;
+    let mut cases: Vec<CaseSpec> = fam_for(tier, "C12");
+    cases.extend(dl_grid_cases().into_iter().filter(|c| c.g.dim <= 4 && c.g.loop_number(c.g.full()) <= 3));
+    let st = Settings::META;
+    let plan = Plan {
+        cases,
+        k: 1,
+        roles: Roles { u: false, xi: false, p: true, ab: false, xi_moderate: true },
+        settings: st,
+        full_product_cap: 0,
+        sector_all_up_to: 0,
+        sector_stride: 100000,
+        tropical_routing: false,
+        points_per_case: 100,
+    };
+    let f = |case: &Case, r: &Routed, po: &PointObs, _nd: usize, acc: &mut Acc| {
+        let rr = match &po.rr {
+            Some(rr) => rr,
+            None => return,
+        };
+        let p = rr.p_lambda;
+        acc.inc("binding_points");
+        let dod_impl = r.sampler.get_dod();
+        let (public, _) = crate::kernel::call_gamma(dod_impl, p);
+        match (&po.out, public) {
+            (Outcome::Panic(m), _) => {
+                viol(acc, "C12", "sample does not panic in the Gamma draw", case, r, po, &st, format!("sample panicked with p = {p:e}: {m}"));
+            }
+            (Outcome::Ok(s), crate::kernel::GammaObs::Err) => {
+                let _ = s;
+                viol(acc, "C12", "GammaError surfaces as Err(SamplingError::GammaError)", case, r, po, &st, format!("inverse_gamma_lr(dod={dod_impl:e}, p={p:e}) is an error but the sample returned Ok"));
+            }
+            (Outcome::Err(e), crate::kernel::GammaObs::Err) => {
+                if e != "GammaError" {
+                    acc.inc("binding_err_other_than_gamma");
+                } else {
+                    acc.inc("binding_gamma_errors_surfaced");
+                }
+            }
+            (Outcome::Ok(s), _) => {
+                if let Some(m) = &s.meta {
+                    let l = m.lambda;
+                    if !(l.is_finite() && l > 0.0) {
+                        viol(acc, "C12", "lambda of a sample is finite and positive", case, r, po, &st, format!("sample used lambda = {l:e}"));
+                        return;
+                    }
+                    let a = case.dod;
+                    let (floor, _) = oracle::special::inc_gamma(a, 1e-13);
+                    if (0.05..=100.0).contains(&a) && floor <= p && p > 0.0 {
+                        let (pp, qq) = oracle::special::inc_gamma(a, l);
+                        let err = if p <= 0.5 { (pp - p).abs() } else { (qq - (1.0 - p)).abs() };
+                        acc.inc("binding_judged");
+                        if !(err <= 2e-8) {
+                            viol(acc, "C12", "lambda = Gamma quantile of (dod, designated coordinate)", case, r, po, &st, format!("lambda = {l:e} but P(dod={a:e}, lambda) = {pp:e} while coordinate 2E-2 is {p:e}"));
+                        }
+                    }
+                }
+            }
+            _ => {}
+        }
+    };
+    explore(&plan, &f)
 }
 
 pub fn run_simple(ctx: &Ctx) -> i32 {
@@ -987,6 +1233,7 @@ pub fn replay_point(ctx: &Ctx, v: &Value) -> i32 {
         "C10" => c10_point(&case, &r, &po, 0, &mut acc),
         "C11" => c11_point(&case, &r, &po, 0, &mut acc),
         "C13" => c13_point(&case, &r, &po, 0, &mut acc),
+        "C02" => c02_point(&case, &r, &po, 0, &mut acc),
         _ => {}
     }
     for v in &acc.violations {
